@@ -6,11 +6,12 @@ package main
 // one client instance against one server (what a request carries must not depend on earlier requests).  Every call drives one method of the REAL client
 // (client.New(...), default HTTP client and transport) against its own fault-injecting httptest server and
 // reports a projection: the requests the server saw (method, raw request target, Authorization / ETag /
-// If-Match request headers, string leaves of a JSON request body), the number of client.Do round trips
+// If-Match request headers, string / number / boolean leaves of a JSON request body), the number of client.Do round trips
 // (counted by a wrapper around http.DefaultTransport), and the class of the returned values / diagnostics /
 // error.  The calls of a group run concurrently because the retry loop sleeps for real (1 s, 2 s, 4 s).
 
 import (
+	"bytes"
 	"context"
 	"encoding/hex"
 	"encoding/json"
@@ -124,6 +125,11 @@ func c20Flatten(prefix string, v any, out *[][]string) {
 		}
 	case string:
 		*out = append(*out, []string{prefix, c20hx(x)})
+	case json.Number:
+		// number leaves (the revision a tag points to, a replacement revision): their decimal text
+		*out = append(*out, []string{prefix, c20hx(x.String())})
+	case bool:
+		*out = append(*out, []string{prefix, c20hx(strconv.FormatBool(x))})
 	}
 }
 
@@ -178,7 +184,9 @@ func c20NewSession(token string) *c20Session {
 		rq := c20Req{M: r.Method, T: c20hx(r.RequestURI), Auth: c20hx(r.Header.Get("Authorization")),
 			ETag: c20hx(r.Header.Get("ETag")), IfM: c20hx(r.Header.Get("If-Match")), BF: [][]string{}}
 		var v any
-		if json.Unmarshal(body, &v) == nil {
+		dec := json.NewDecoder(bytes.NewReader(body))
+		dec.UseNumber()
+		if dec.Decode(&v) == nil {
 			c20Flatten("", v, &rq.BF)
 			sort.Slice(rq.BF, func(a, b int) bool { return rq.BF[a][0] < rq.BF[b][0] })
 		}
@@ -302,7 +310,7 @@ func c20Call(ss *c20Session, c map[string]any) (res map[string]any) {
 	srv, cl, host := ss.srv, ss.cl, ss.host
 	attBefore := c20RT.count(host)
 	ctx := context.Background()
-	yaml := []byte(`{"values":{"a":1}}`)
+	yaml := []byte("values:\n  a: 1\n") // not JSON: the body of an update is opaque to the request projection
 
 	var vals []string
 	var diags []client.EnvironmentDiagnostic
